@@ -62,7 +62,7 @@ CHECKS = {
  'C16': ('fault_enumeration', 'deterministic scheduler over the verif step hook + write-fault enumeration + offline event-log checker E1-E6; concurrent stress under the Go race detector with porcupine linearizability check of the queue boundary',
          'Mode A: the harness, not tickers, chooses ticks, the yield point (nine per batch) at which each concurrent Add lands and which CAS / anchor write fails; an exhaustive 3-operation family and tens of thousands to millions of PRNG schedules, each log checked for exactly-once anchoring, FIFO/nack-to-head, batch size, version purity, undersized-batch rule, re-queue of deferred operations and bounded drain; a slice uses the real OperationHandler. Mode B: real Start() with millisecond tickers and 2-8 adders under -race; porcupine checks the recorded queue history against a sequential queue model.',
          'Crash points are failed CAS/anchor writes (a process crash after a successful anchor is at-least-once by construction and outside the statement); Mode B quiescence uses a generous wall-clock watchdog whose firing is inconclusive.', 'DESIGN.md 5/C16, A.2, D.4'),
- 'C19': ('exploration', 'independent projection monitor with retained-result re-check (aliasing across transformations) and a slice through DocumentHandler.ResolveDocument',
+ 'C19': ('exploration', 'independent projection monitor with retained-result re-check (aliasing across transformations) and a slice through DocumentHandler.ResolveDocument; shared transformer instances driven from goroutines under the Go race detector',
          'Generated internal documents over every key type x purpose subset, material encodings, services, aliases; random resolution models and transformer options; each transformer instance serves many documents sequentially and from goroutines and every result is re-verified after all later calls.',
          'Context membership, not order; key-type/context table frozen from the pinned tree.', 'DESIGN.md 5/C19'),
  'C20': ('exploration', 'full-pipeline runtime monitor: real components end to end vs reference state machine + independent projection at every quiescent point; race detector',
@@ -70,7 +70,7 @@ CHECKS = {
          'Runs with an unpublished store use operations without windows; ledger and stores are harness implementations of the caller-provided interfaces.', 'DESIGN.md 5/C20'),
 }
 
-RACE = {'C15', 'C16', 'C20'}
+RACE = {'C15', 'C16', 'C19', 'C20'}
 
 hooks = subprocess.run(['git', '-C', '/repo', 'log', '--format=%H %s'], capture_output=True, text=True).stdout.splitlines()
 hook_commits = [l.split()[0] for l in hooks if ' verif hooks:' in l]
